@@ -2,6 +2,8 @@
 //   drv_wfile gen <dir> <seed> <quick|thorough>     -> CASE {json} per file
 //   drv_wfile readback <file>...                    -> READ {json} per file (reader counters at the end)
 #include <random>
+#include <chrono>
+#include <thread>
 #include <unistd.h>
 
 #include "blfkit.h"
@@ -105,11 +107,15 @@ int main(int argc, char ** argv) {
                 std::vector<uint8_t> truth;
                 long n115 = 0;
                 FileStatistics want;
+                bool late_cfg = false;
                 {
                     File f;
                     f.setDefaultLogContainerSize((uint32_t) C);
-                    f.compressionLevel = level;
-                    f.writeRestorePoints = rp != 0;
+                    // every third session configures level and restore points only after open() (they are used when
+                    // the first container is compressed / at close): the file must be the same as with early settings
+                    bool late = late_cfg = (idx % 3) == 1;
+                    f.compressionLevel = late ? (level == 0 ? 6 : 0) : level;
+                    f.writeRestorePoints = late ? (rp == 0) : (rp != 0);
                     // caller-supplied header fields
                     f.fileStatistics.applicationId = (uint8_t) rng();
                     f.fileStatistics.applicationMajor = (uint8_t) rng();
@@ -120,6 +126,12 @@ int main(int argc, char ** argv) {
                     f.fileStatistics.measurementStartTime.year = (uint16_t) rng();
                     want = f.fileStatistics;
                     f.open(fn.c_str(), std::ios_base::out);
+                    if (late) {
+                        // let the worker threads start and block on the empty pipeline first
+                        std::this_thread::sleep_for(std::chrono::milliseconds(30));
+                        f.compressionLevel = level;
+                        f.writeRestorePoints = rp != 0;
+                    }
                     // some header fields are only known later: set after open() ...
                     f.fileStatistics.measurementStartTime.milliseconds = want.measurementStartTime.milliseconds = (uint16_t) rng();
                     f.fileStatistics.applicationBuild = want.applicationBuild = (uint32_t) rng();
@@ -136,7 +148,7 @@ int main(int argc, char ** argv) {
                 }
                 kit::write_file(fn + ".payload", truth);
                 JObj o;
-                o.puts("file", fn).put("C", C).put("level", (long) level).putb("rp", rp != 0);
+                o.puts("file", fn).put("C", C).put("level", (long) level).putb("rp", rp != 0).putb("late", late_cfg);
                 o.put("nobj", nobj).put("n115", n115).put("total", (long) truth.size());
                 JObj w;
                 w.put("applicationId", (long) want.applicationId).put("applicationMajor", (long) want.applicationMajor)
